@@ -78,7 +78,12 @@ def gen_case(rnd, spec):
         elif k < 0.6:
             ops.append(["read"])
         elif k < 0.9:
-            ops.append(["state", rnd.choice([0, 1, 10, rnd.randint(0, 100), rnd.random() * 50]), rnd.randint(0, 16) / 16, rnd.randint(0, 16) / 16])
+            if rnd.random() < 0.8:
+                ops.append(["state", rnd.choice([0, 1, 10, rnd.randint(0, 100), rnd.random() * 50]), rnd.randint(0, 16) / 16, rnd.randint(0, 16) / 16])
+            else:
+                # a pool may report its fractions as any number: whole numbers, exact rationals
+                frac = lambda: rnd.choice([0, 1, True, ["F", rnd.randint(0, 10), 10], ["F", rnd.randint(0, 3), 3], ["D", "0.%d" % rnd.randint(0, 99)]])  # noqa: E731
+                ops.append(["state", rnd.choice([0, 1, 10, rnd.randint(0, 100)]), frac(), frac()])
         elif k < 0.95:
             ops.append(["outside", rnd.randint(0, 60)])
         elif k < 0.98:
@@ -87,6 +92,15 @@ def gen_case(rnd, spec):
         else:
             ops.append(["relevel", rnd.randint(0, 5), rnd.choice([10, 20, 30, 35, 50, 1])])
     return {"stack": stack, "ops": ops, "init": {"demand": rnd.randint(0, 30), "supply": rnd.randint(0, 30)}}
+
+
+def number(value):
+    if isinstance(value, list):
+        import decimal
+        import fractions
+
+        return fractions.Fraction(value[1], value[2]) if value[0] == "F" else decimal.Decimal(value[1])
+    return value
 
 
 class Capture(logging.Handler):
@@ -216,7 +230,9 @@ def execute(case, result):
             elif op[0] == "read":
                 pass
             elif op[0] == "state":
-                pool.poke(supply=op[1], utilisation=op[2], allocation=op[3])
+                pool.poke(supply=op[1], utilisation=number(op[2]), allocation=number(op[3]))
+                if not isinstance(op[2], float) or not isinstance(op[3], float):
+                    result.count("states_with_fractions_that_are_not_floats")
             elif op[0] == "outside":
                 pool.poke(demand=op[1])
             elif op[0] in ("rename", "relevel"):
@@ -353,6 +369,6 @@ def run_shard(spec):
 
 def finish(total, tier):
     for name in ("writes_checked", "records_checked", "transparent_writes_checked", "reads_checked", "loggers_renamed", "loggers_releveled",
-                 "states_utilisation_above_allocation", "templates_unknown_field", "templates_known_fields"):
+                 "states_utilisation_above_allocation", "states_with_fractions_that_are_not_floats", "templates_unknown_field", "templates_known_fields"):
         if not total.counters.get(name) and not total.violations:
             total.inconc("monitor never observed: " + name)
